@@ -157,10 +157,23 @@ def coq_term(v, keys):
     raise TypeError("value outside the term domain: %r" % (v,))
 
 
+def shape(v):
+    """container kinds (tuple vs list vs dict), which the flat encoding does not distinguish"""
+    if isinstance(v, tuple):
+        return ("tuple",) + tuple(shape(x) for x in v)
+    if isinstance(v, list):
+        return ("list",) + tuple(shape(x) for x in v)
+    if isinstance(v, dict):
+        return ("dict",) + tuple((k, shape(x)) for k, x in v.items())
+    if isinstance(v, App):
+        return ("app",) + tuple(shape(x) for x in v.args)
+    return ("atom",)
+
+
 def same(a, b):
     """structural equality without using == (which is a free constructor on terms)"""
     k = Keys()
     try:
-        return enc(a, k) == enc(b, k)
+        return enc(a, k) == enc(b, k) and shape(a) == shape(b)
     except TypeError:
         return False
